@@ -13,6 +13,7 @@
 //!                             that has finished are skipped and counted in `stuck`; when the string is
 //!                             exhausted the lowest runnable thread continues)
 //!   prog = threads separated by '/', calls separated by '.':  s<id> (set with payload id) | g (get) | i (is_set)
+//!          | d (format the holder with {:?}; result token d)
 //! observation:  n=<number of entries> <entry>;<entry>;...
 //!   entry   = <sched>|<ops>|<results>      followed, only when something is abnormal, by
 //!             |!same=<0|1>,intact=<0|1>,stuck=<n>,overflow=<0|1>
@@ -36,7 +37,7 @@ use std::time::Duration;
 const MAGIC: u64 = 0x9e37_79b9_7f4a_7c15;
 const MAX_STEPS: usize = 96;
 
-#[derive(Default)]
+#[derive(Default, Debug)]
 pub struct Payload {
     id: u64,
     check: u64,
@@ -61,10 +62,14 @@ enum Call {
     Set(u64),
     Get,
     IsSet,
+    /// format the holder with `{:?}` (the type derives Debug): not one of set / get / is_set, and expected to touch
+    /// neither the cell nor - through a traced operation - the state
+    Dbg,
 }
 
 enum Res {
     Unit,
+    Dbg,
     Get(Option<Arc<Payload>>),
     IsSet(bool),
     Panic,
@@ -252,6 +257,11 @@ fn run_calls(calls: &[Call], holder: &SingletonHolder<Payload>) -> Vec<Res> {
             }
             Call::Get => Res::Get(holder.get()),
             Call::IsSet => Res::IsSet(holder.is_set()),
+            Call::Dbg => {
+                let text = format!("{:?}", holder);
+                std::hint::black_box(text.len());
+                Res::Dbg
+            }
         });
         match r {
             Ok(x) => out.push(x),
@@ -383,6 +393,7 @@ fn run_once(sched: &Arc<Sched>, prefix: &[usize], strict: bool) -> Exec {
         for r in th {
             v.push(match r {
                 Res::Unit => "u".to_string(),
+                Res::Dbg => "d".to_string(),
                 Res::Get(None) => "n".to_string(),
                 Res::Get(Some(a)) => {
                     if !a.intact() {
@@ -477,6 +488,8 @@ fn parse_prog(s: &str) -> Vec<Vec<Call>> {
                         Call::Get
                     } else if c == "i" {
                         Call::IsSet
+                    } else if c == "d" {
+                        Call::Dbg
                     } else if let Some(id) = c.strip_prefix('s') {
                         Call::Set(id.parse().expect("payload id"))
                     } else {
